@@ -39,6 +39,8 @@ RULE = ("Hypothesis-generated pairs of RDM stacks over 3-7 conditions, n1,n2 in 
         "mid-ranks, enumeration of all joint tie-breakings for rho-a where <=400, dense V built "
         "element-wise and inverted, Bures fidelity as nuclear norm of Xc'Yc from the points and of the factorised kernels -HDH/2) plus the "
         "laws symmetry, self-similarity, range, permutation invariance, array == RDMs input. "
+        "Sub-check 'very_many_conditions': tie-free or 2/7/50-level RDMs over 400-500 conditions "
+        "(pair counts beyond 2^31.5, products of them beyond 2^63), tau-b / tau-a vs scipy. "
         "Sub-check 'degenerate': stacks of 2-4 RDMs with zero/constant RDMs at generated positions. "
         "Exhaustive: all 729 pairs of 3-pair RDM vectors over {0,1,2} (every pair of weak orders "
         "of 3 dissimilarities) for the five rank measures. Non-trivial: n1 != n2, or ties "
@@ -277,6 +279,68 @@ def check_large(case):
 def classify_large(case):
     return ['method:' + case['method'], 'n_cond=%d' % case['n']], True
 
+
+# ---- sub-check: very many conditions (pair counts of pairs beyond 2^31.5) -----------------------
+
+@st.composite
+def huge_case(draw):
+    n = draw(st.sampled_from([400, 412, 431, 450, 500]))
+    levels = draw(st.sampled_from([0, 0, 50, 50, 7, 2]))      # 0: tie-free
+    return dict(n=n, levels=levels, a=draw(st.integers(3, 10 ** 6)), b=draw(st.integers(3, 10 ** 6)),
+                form=draw(st.sampled_from(['array2d', 'rdms'])))
+
+
+def check_huge(case):
+    """RDMs over 400-500 conditions (79 800 - 124 750 dissimilarities, so 3e9 - 8e9 pairs of
+    dissimilarities: counts of pairs and their products leave the int32 / int64 range), tie-free or on
+    2 / 7 / 50 levels.  tau-b vs scipy.stats.kendalltau (trusted); tau-a = tau-b * sqrt((T - Tx)(T - Ty))
+    / T with the tie counts Tx, Ty taken from np.unique; tau-b of every RDM with itself = 1."""
+    import scipy.stats as ss
+    n, k = case['n'], case['levels']
+    P = ref.n_pairs(n)
+    prime = 1000003
+    idx = np.arange(1, P + 1)
+    s1 = idx * (case['a'] % prime or 7) % prime
+    s2 = idx * (case['b'] % prime or 11) % prime
+    s3 = idx * ((case['a'] + case['b']) % prime or 13) % prime
+    if k:
+        r1, r2, r3 = s1 % k, (s1 % k) * 2 + s2 % k, s3 % k + s2 % k
+    else:
+        r1, r2, r3 = s1, s1 + 2 * s2, s3 + 2 * s2
+    v1 = np.array([r1, r3], dtype=float)
+    v2 = np.array([r2], dtype=float)
+    if any(len(np.unique(v)) < 2 for v in (r1, r2, r3)):
+        raise Reject('constant RDM', 'degenerate:constant')
+    if not k and any(len(np.unique(v)) < P for v in (r1, r2, r3)):
+        raise Reject('ties', 'degenerate:ties')
+
+    def inp(a):
+        return RDMs(a.copy()) if case['form'] == 'rdms' else a.copy()
+
+    def tied_pairs(v):
+        c = np.unique(v, return_counts=True)[1].astype(object)
+        return int(sum(int(x) * (int(x) - 1) // 2 for x in c))
+
+    tot = P * (P - 1) // 2
+    tau_b = np.array([[float(ss.kendalltau(x, y)[0]) for y in v2] for x in v1])
+    tau_a = np.array([[tau_b[i, j] * math.sqrt(tot - tied_pairs(x)) * math.sqrt(tot - tied_pairs(y)) / tot
+                       for j, y in enumerate(v2)] for i, x in enumerate(v1)])
+    what = '%s RDMs over %d conditions (%d dissimilarities, %d pairs of them)' % (
+        'tie-free' if not k else '%d-level' % k, n, P, tot)
+    for m, want in (('kendall', tau_b), ('tau-b', tau_b), ('tau-a', tau_a)):
+        got = np.asarray(lib(C.compare, inp(v1), inp(v2), method=m, on_error='violation',
+                             sig='raises:' + m), dtype=float)
+        require(got.shape == (2, 1), '%s: result shape %s for stacks of 2 and 1 RDMs' % (m, got.shape),
+                'shape:' + m)
+        require_close(got, want, '%s of %s' % (m, what), 'value:huge:' + m, rtol=1e-9, atol=1e-10)
+    own = np.asarray(lib(C.compare, inp(v1), inp(v1), method='tau-b', on_error='violation',
+                         sig='raises:tau-b'), dtype=float)
+    require_close(np.diag(own), np.ones(2), 'tau-b of each RDM with itself, %s' % what,
+                  'law:self:huge:tau-b', rtol=1e-9, atol=1e-10)
+
+
+def classify_huge(case):
+    return ['n_cond=%d' % case['n'], 'levels=%d' % case['levels'], 'form:' + case['form']], True
 
 # ---- sub-check: rank measures ---------------------------------------------------------
 
@@ -599,4 +663,7 @@ SUBCHECKS = [
     SubCheck('degenerate', degenerate_case(), check_degenerate, classify_degenerate, quick=400, thorough=5000,
              doc='stacks of 2-4 RDMs containing all-zero (cosine) / constant (centred, ranked) RDMs: '
                  'every entry between two regular RDMs still equals the definition'),
+    SubCheck('very_many_conditions', huge_case(), check_huge, classify_huge, quick=8, thorough=40,
+             doc='Kendall tau-b / tau-a of tie-free and 2/7/50-level RDMs over 400-500 conditions (3e9-8e9 '
+                 'pairs of dissimilarities) vs scipy.stats.kendalltau and the tie counts; tau-b self = 1'),
 ]
